@@ -408,6 +408,18 @@ pub fn decode_image(img: &DirImage) -> Result<Decoded, String> {
             }
         }
     }
+    if let Ok(pfx) = std::env::var("VERIF_DUMP") {
+        // debugging aid: separators / leaves around a key prefix (hex)
+        eprintln!("DUMP meta bumps ln {} bbn {} ; {} separators", meta.ln_bump, meta.bbn_bump, seps.len());
+        for (i, (sep, lpn, bpn)) in seps.iter().enumerate() {
+            let h = hex::encode(&sep[..8]);
+            let near = seps.get(i + 1).map_or(true, |n| hex::encode(&n.0[..8]) >= pfx) && h[..pfx.len().min(h.len())] <= *pfx || h.starts_with(&pfx);
+            if near {
+                let keys: Vec<String> = decode_leaf(page(ln, *lpn), *lpn).map(|c| c.iter().map(|(k, _)| hex::encode(&k[..6])).collect()).unwrap_or_default();
+                eprintln!("DUMP sep {} leaf {lpn} bbn {bpn} keys {:?}", hex::encode(&sep[..10]), keys);
+            }
+        }
+    }
     // leaves
     let mut used_ln: BTreeMap<u32, String> = BTreeMap::new();
     for (i, (sep, lpn, bpn)) in seps.iter().enumerate() {
